@@ -43,7 +43,7 @@ static void body(Env& env, const std::string& stage, int n, int L, int perSide, 
     if (c.wantSample() && !eA && !eB && A != B && w >= 3) c.sample("A: " + A.str() + " | B: " + B.str() + " | included=" + (expect ? "1" : "0"));
     ExplicitFiniteAut a = ref::buildFA(A), b = ref::buildFA(B);
     for (auto& g : ALGS) for (int prepared = 0; prepared < 2; prepared++) {
-      std::string what; int got = call(a, b, g, prepared, &what); c.count("calls");
+      std::string what; int got = call(a, b, g, prepared, &what); c.count("calls"); verif::obs((uint64_t)got + 29);
       if (got == (expect ? 1 : 0)) continue;
       std::string cls = got >= 2 ? "exception" : got == 1 ? "says_included_but_is_not" : "says_not_included_but_is";
       std::vector<std::string> feats; if (A.starts.size() > 1) feats.push_back("A_several_start_states"); if (B.starts.size() > 1) feats.push_back("B_several_start_states");
